@@ -48,7 +48,16 @@ class C11(SigProp):
                 from .c10 import is_sub
 
                 # the declared class of the channel
-                decl = next(o["evcls"] for o in case["ops"] if o["op"] == "access" and seen.get((o["inst"], o["attr"])) == f"chan {op['chan']}")
+                # channel numbers follow the order of first access (the case's own numbering)
+                firsts: list[int] = []
+                keys: list[tuple[int, str]] = []
+                for o in case["ops"]:
+                    if o["op"] == "access" and (o["inst"], o["attr"]) not in keys:
+                        keys.append((o["inst"], o["attr"]))
+                        firsts.append(o["evcls"])
+                if op["chan"] >= len(firsts):
+                    continue
+                decl = firsts[op["chan"]]
                 ok = is_sub(case["evparents"], op["cls"], decl)
                 if ok and out[:1] != ["ok"]:
                     fails.append(f"an event of a matching class was rejected on channel {op['chan']}: {out}")
